@@ -900,6 +900,13 @@ pub struct C18Scn {
     pub mixed_term: bool,
     pub warm: usize,
     pub window: usize,
+    /// next() mode only: the input holds exactly warm-up + window records, so the window ends with
+    /// the last record of the input and one more call that reports the end
+    #[serde(default)]
+    pub to_end: bool,
+    /// with `to_end`: the last line of the input has no terminator
+    #[serde(default)]
+    pub no_final_term: bool,
 }
 
 fn c18_record(s: &C18Scn, i: usize) -> Vec<u8> {
@@ -974,6 +981,8 @@ pub fn gen_c18(rng: &Rng, tier: Tier) -> C18Scn {
             Tier::Quick => rng.range(50, 400),
             Tier::Thorough => rng.range(200, 5000),
         },
+        to_end: false,
+        no_final_term: false,
     };
     let rl = c18_record(&s, 0).len();
     if rng.chance(1, 4) {
@@ -1036,6 +1045,12 @@ pub fn gen_c18(rng: &Rng, tier: Tier) -> C18Scn {
     }
     if fmt == Fmt::Fastq && rng.chance(1, 8) {
         s.mixed_term = true;
+    }
+    if !s.sets && rng.chance(1, 3) {
+        // the steady state lasts to the end of the input: the last record (with or without a final
+        // terminator) and the call that reports the end are inside the window
+        s.to_end = true;
+        s.no_final_term = rng.chance(1, 2);
     }
     if s.sets && s.set_mode == 0 && rng.chance(1, 6) {
         s.via_fill_data = true;
@@ -1100,9 +1115,22 @@ pub fn run_c18(s: &C18Scn, st: &mut Stats) -> RunResult {
     let min_rec = (0..s.small_every.max(1)).map(|i| c18_record(s, i).len()).min().unwrap_or(1).max(1);
     let per_call = if s.sets && s.set_mode != 1 { (s.cap.max(s.second_cap.unwrap_or(0)) / min_rec).max(1) + 1 } else { 1 };
     let n_records = (s.warm.max(3 * s.set_mode) + s.window + 4) * per_call + 8;
+    let to_end = s.to_end && !s.sets;
+    let n_records = if to_end { s.warm.max(3 * s.set_mode) + s.window } else { n_records };
     let mut input = Vec::with_capacity(n_records * c18_record(s, 0).len());
     for i in 0..n_records {
         input.extend_from_slice(&c18_record(s, i));
+    }
+    if to_end && s.no_final_term {
+        if input.last() == Some(&b'\n') {
+            input.pop();
+        }
+        if input.last() == Some(&b'\r') {
+            input.pop();
+        }
+        st.probe("probe.window_ends_with_unterminated_last_record");
+    } else if to_end {
+        st.probe("probe.window_ends_with_the_input");
     }
     let cfg = Cfg { cap: s.cap, policy: PolicySpec::Std, script: s.script.clone(), cuts: vec![], faults: vec![], intr_burst: None, lift: None, pause: None };
     if s.via_fill_data && s.sets && s.set_mode == 0 {
@@ -1192,6 +1220,10 @@ pub fn run_c18(s: &C18Scn, st: &mut Stats) -> RunResult {
                     }
                     done += 1;
                 }
+                if to_end {
+                    // the call that reports the end of the input
+                    let _ = rd.next().is_none();
+                }
                 let n = alloc::disarm();
                 let g1 = seam.borrow().all_grows.len();
                 (n, g1 - g0, done, restarts)
@@ -1242,6 +1274,10 @@ pub fn run_c18(s: &C18Scn, st: &mut Stats) -> RunResult {
                         alloc::arm();
                     }
                     done += 1;
+                }
+                if to_end {
+                    // the call that reports the end of the input
+                    let _ = rd.next().is_none();
                 }
                 let n = alloc::disarm();
                 let g1 = seam.borrow().all_grows.len();
